@@ -213,6 +213,123 @@ theorem C15_rel_set_then_get_relaxed (g : Row) (hg : g ∈ Gen.Accessors.rows) (
   refine ⟨k, _, h1, h2, h3, rfl, h5, ?_, v3, v4⟩
   simp [relGetRelaxed, h4, v2]
 
+/-! ### substitution variables: the strict getters panic -/
+
+theorem rootLoop_dollar_errs (t : Rel.Tok) (r : List Rel.Tok) (ht : t.1 = Rel.Kind.DOLLAR) :
+    (Rel.rootLoop false (t :: r)).errs ≠ [] := by
+  have h1 : (Rel.rootFirst false t r).errs = ["Substvars are not allowed"] := by
+    simp [Rel.rootFirst, ht, Rel.errorTok]
+  rw [Rel.rootLoop]
+  split
+  · simp [h1]
+  · simp [h1]
+
+/-- a substitution variable anywhere in the field makes the parser report an error when they are
+    not allowed -/
+theorem rootLoop_substvar_errs (s : Seg) (ss : List Seg) (hok : ∀ x ∈ s :: ss, x.ok = true)
+    (hsv : ∃ x ∈ s :: ss, x.entry.isSubstvar = true) :
+    (Rel.rootLoop false (Rel.bodyToks s ++ Rel.tailToks ss)).errs ≠ [] := by
+  induction ss generalizing s with
+  | nil =>
+    obtain ⟨x, hx, hxs⟩ := hsv
+    simp only [List.mem_singleton] at hx
+    subst hx
+    cases he : x.entry with
+    | substvar p ps =>
+      simp only [Rel.bodyToks, he, EntryA.toks, substvarToks, List.cons_append]
+      exact rootLoop_dollar_errs _ _ rfl
+    | alts r rest => rw [he] at hxs; simp [EntryA.isSubstvar] at hxs
+    | empty => rw [he] at hxs; simp [EntryA.isSubstvar] at hxs
+  | cons u us ih =>
+    cases hss : s.entry.isSubstvar with
+    | true =>
+      cases he : s.entry with
+      | substvar p ps =>
+        simp only [Rel.bodyToks, he, EntryA.toks, substvarToks, List.cons_append]
+        exact rootLoop_dollar_errs _ _ rfl
+      | alts r rest => rw [he] at hss; simp [EntryA.isSubstvar] at hss
+      | empty => rw [he] at hss; simp [EntryA.isSubstvar] at hss
+    | false =>
+      have hsv' : ∃ x ∈ u :: us, x.entry.isSubstvar = true := by
+        obtain ⟨x, hx, hxs⟩ := hsv
+        simp only [List.mem_cons] at hx
+        rcases hx with rfl | hx
+        · rw [hss] at hxs; cases hxs
+        · exact ⟨x, by simpa using hx, hxs⟩
+      have ih' := ih u (fun x hx => hok x (List.mem_cons_of_mem _ hx)) hsv'
+      have hs := hok s (by simp)
+      have hu := hok u (by simp)
+      obtain ⟨_, _, _, h4⟩ := (Rel.Seg.ok_iff s).1 hs
+      have hy : Rel.NoWs (Rel.bodyToks u ++ Rel.tailToks us) := Rel.bodyToks_noWs u hu us
+      have etail : Rel.tailToks (u :: us) = commaTok :: (gapToks u.pre ++ (Rel.bodyToks u ++ Rel.tailToks us)) := by
+        simp [Rel.tailToks]
+      have hp : Rel.segParseOk false s := by intro h; rw [hss] at h; cases h
+      cases hemp : s.entry.isEmpty with
+      | true =>
+        have hpost : s.post = [] := h4 hemp
+        have he : s.entry = .empty := by cases h : s.entry <;> simp [h, EntryA.isEmpty] at hemp; rfl
+        have h1 : Rel.rootFirst false commaTok (gapToks u.pre ++ (Rel.bodyToks u ++ Rel.tailToks us))
+            = ⟨[], [], commaTok :: (gapToks u.pre ++ (Rel.bodyToks u ++ Rel.tailToks us))⟩ := by
+          simp [Rel.rootFirst, commaTok, Rel.PR.nil]
+        have h2 := Rel.skipWs_noWs (commaTok :: (gapToks u.pre ++ (Rel.bodyToks u ++ Rel.tailToks us))) (Rel.noWs_cons _ _ rfl)
+        have := Rel.rootLoop_step false _ _ _ _ _ u.pre _ hy h1 h2
+        have e' : Rel.bodyToks s ++ Rel.tailToks (u :: us) = commaTok :: (gapToks u.pre ++ (Rel.bodyToks u ++ Rel.tailToks us)) := by
+          simp [Rel.bodyToks, he, EntryA.toks, hpost, gapToks, etail]
+        rw [e', this]
+        exact ih'
+      | false =>
+        obtain ⟨t, r, x, n1, n2, e, h1, h2, _⟩ :=
+          Rel.seg_head false s hp hemp (Rel.tailToks (u :: us)) (Rel.tailToks_entryEnd _)
+        rw [etail] at h2
+        have := Rel.rootLoop_step false t r n1 n2 x u.pre _ hy h1 h2
+        rw [e, this]
+        exact ih'
+
+/-- `Relations::from_str` REJECTS every well-formed field that contains a substitution variable
+    (`${misc:Depends}` …): the strict reader returns its non-empty error list -/
+theorem readStrict_substvar (f : FieldA) (hwf : f.WF) (hsv : f.hasSubstvar = true) :
+    ∃ errs, errs ≠ [] ∧ Rel.readStrict f.str = .error errs := by
+  have hok : ∀ s ∈ f.segs, s.ok = true := by
+    simpa [FieldA.WF, FieldA.ok, List.all_eq_true] using hwf
+  have hex : ∃ x ∈ f.segs, x.entry.isSubstvar = true := by
+    simpa [FieldA.hasSubstvar] using hsv
+  have herr : (Rel.parse f.str false).errors ≠ [] := by
+    unfold Rel.parse
+    rw [Rel.lex_field f hwf]
+    cases hsegs : f.segs with
+    | nil => rw [hsegs] at hex; simp at hex
+    | cons s ss =>
+      rw [hsegs] at hok hex
+      have h1 := Rel.skipWs_gap s.pre (Rel.bodyToks s ++ Rel.tailToks ss) (Rel.bodyToks_noWs s (hok s (by simp)) ss)
+      have h2 := rootLoop_substvar_errs s ss hok hex
+      simp only [Rel.parseTokens, FieldA.toks, hsegs, Rel.segsToks_eq, h1]
+      exact h2
+  refine ⟨(Rel.parse f.str false).errors, herr, ?_⟩
+  unfold Rel.readStrict
+  have : (Rel.parse f.str false).errors.isEmpty = false := by
+    cases h : (Rel.parse f.str false).errors with
+    | nil => exact absurd h herr
+    | cons _ _ => rfl
+  simp [this]
+
+/-- **the strict getters panic on their own setter's output** when the value contains a
+    substitution variable: for every relations pair of the table, every prior paragraph and every
+    well-formed field `f` with a `${…}` entry, `set_X(f)` then `X()` runs `from_str(f.str).unwrap()`
+    on an `Err` (these getters are entries of `knownPanic`; control `Binary::depends()` on the usual
+    `${shlibs:Depends}, ${misc:Depends}` is the everyday instance).  The relaxed reading of the same
+    text is `C15_rel_set_then_get_relaxed`. -/
+theorem C15_rel_substvar_panics (g : Row) (hg : g ∈ Gen.Accessors.rows) (hk : g.kind = .get)
+    (hr : isRelRow g = true) (s : Row) (hs : setterOf g = some s) (cs : List DNode)
+    (f : FieldA) (hwf : f.WF) (hsv : f.hasSubstvar = true) :
+    ∃ cs' errs, setSem s (.text f.str) cs = some cs' ∧ errs ≠ [] ∧ relGet g cs' = some (.error errs)
+      ∧ knownPanic.contains (g.view, g.method) = true := by
+  obtain ⟨k, h1, h2, h3, h4, h5⟩ := rel_pair_step g hg hk hr s hs cs f.str
+  obtain ⟨errs, he, hre⟩ := readStrict_substvar f hwf hsv
+  refine ⟨_, errs, h3, he, by simp [relGet, h4, hre], ?_⟩
+  have : ∀ r ∈ Gen.Accessors.rows, isRelRow r = true → r.kind = .get →
+      knownPanic.contains (r.view, r.method) = true := by decide +kernel
+  exact this g hg hr hk
+
 /-! ### non-vacuity -/
 
 /-- `debhelper-compat (= 13), libfoo-dev:any (>= 1.2~rc1) [amd64 !i386] <!nocheck> | bar` -/
